@@ -132,6 +132,26 @@ def in_domain(v, depth=0):
     return False
 
 
+def need_py(v):
+    """Python frames deserialize_value needs for the encoding of v (mirrors the theorem premise)"""
+    t = type(v)
+    if v is None:
+        return 2
+    if t in (bool, int, float):
+        return 3
+    if t in (str, bytes):
+        return 5
+    if t in (list, tuple, set):
+        return 2 + max([3] + [need_py(x) for x in v])
+    if t is dict:
+        return 2 + max([3] + [max(need_py(k), need_py(x)) for k, x in v.items()])
+    if isinstance(v, SL.Serializable):
+        return 2 + max([3] + [need_py(getattr(v, f)) for f in v._fields])
+    if isinstance(v, SL.SerializableEnum):
+        return 2 + need_py(v.value)
+    raise TypeError(v)
+
+
 def nontrivial_key(v):
     t = type(v)
     if t in (list, tuple, dict, set) and len(v) > 0:
@@ -392,6 +412,27 @@ def run(run):
     run.count("concatenated_streams", n_cat)
 
     lap('concat')
+    # ---------------- correspondence: frames — the premise `need v <= fuel` of the theorems
+    # (decode with exactly need(v) Python frames succeeds, with one frame less it is RecursionError)
+    fr_cases, fr_i, fr_margs = [], [], []
+    small = [i for i, (v, b) in enumerate(okv) if len(b) < 600 and dec_i[i][0][0] == 0]
+    for i in (small if T else r.sample(small, min(len(small), 400))):
+        v, b = okv[i]
+        n = need_py(v)
+        for frames in (n, n - 1):
+            ri, reads = SL.impl_decode(b, reg, frames=frames)
+            fr_cases.append((srepr(v)[:120], frames - n))
+            fr_i.append(ri)
+            fr_margs.append([regw, [], frames, b])
+            if frames == n and ri[0] != 0:
+                run.oracle_violation("decode-fails-with-need-frames", {"value": srepr(v)[:300], "frames": n, "error": ri[1]},
+                                     "deserialize_value")
+            if frames == n - 1 and ri != [1, 8]:
+                run.notes.append("need is not tight for %s" % srepr(v)[:80])
+    fr_m = [SL.canon_model_dec(m)[0] for m in M.call_many("ser_dec", fr_margs)]
+    run.compare("ser_dec_frames", fr_cases, fr_i, fr_m)
+    lap("frames")
+
     # ---------------- correspondence: kernels (ints, utf-8, float32)
     ints = list(SL.INT_EDGES) + [SL.gen_int(r, wide=True) for _ in range(20000 if T else 2000)]
     if T:
@@ -590,6 +631,12 @@ def oracle(run, reg, vals, bads, d18):
             report("encode-accepts-value-outside-domain", {"value": srepr(v)[:300], "bytes": b[:64].hex()}, "serialize_value")
         except Exception:           # noqa
             pass
+        st = io.BytesIO()
+        try:
+            S.serialize_value(st, v)
+        except Exception:           # noqa
+            if st.tell() > 0:
+                run.count("refused_after_partial_write_to_stream")
         o = SL.VfHigh()
         o.v = v
         out = None
